@@ -45,7 +45,8 @@ ASSUMPTIONS = [
 SHRINK_FIELDS = ["ops"]
 
 PROFILES = ["slow", "fast", "jumpy", "backjump", "skew", "stall"]
-_CHILD: Optional[Child] = None
+_CHILDREN: Dict[str, Child] = {}
+HASHSEEDS = ["1", "2", "3"]
 
 
 def generate(seed: int, tier: str) -> Dict[str, Any]:
@@ -76,6 +77,7 @@ def generate(seed: int, tier: str) -> Dict[str, Any]:
     # every turn carries the logical clock (ctx.now / ctx.now_ms): the property is stated for a given logical clock;
     # without one the engine documents a fall-back to the wall clock, which is not a reproducibility defect.
     return {"world": world, "cfg": raw, "ops": ops, "profile": r.choice(PROFILES), "clock_seed": int(r.u64() % (1 << 31)),
+            "hashseed": r.choice(HASHSEEDS),
             "wall_offset_days": r.choice([0, 1, 400, -400, 20000])}
 
 
@@ -156,7 +158,6 @@ def _first_diff(a: Dict[str, Any], b: Dict[str, Any]) -> Optional[Dict[str, str]
 
 
 def execute(program: Dict[str, Any]) -> Dict[str, Any]:
-    global _CHILD
     stats: Dict[str, int] = {}
     faults: Dict[str, int] = {}
     violations: List[Dict[str, Any]] = []
@@ -164,13 +165,15 @@ def execute(program: Dict[str, Any]) -> Dict[str, Any]:
     envs = {}
     envs["clock:" + program.get("profile", "slow")] = run_env(program, "E1")
     envs["warm-rerun"] = run_env(program, "E0")
-    if _CHILD is None:
-        _CHILD = Child(hashseed=str(1 + int(program["clock_seed"]) % 4000))
+    hs = str(program.get("hashseed", "1"))
+    child = _CHILDREN.get(hs)
+    if child is None:
+        child = _CHILDREN[hs] = Child(hashseed=hs)
     try:
-        res = _CHILD.call("checks.c01", "run_env", {"program": program, "env": "E0"})
+        res = child.call("checks.c01", "run_env", {"program": program, "env": "E0"})
         envs["hashseed:" + ("fresh" if res.pop("_fresh_interpreter", False) else "warm")] = res
     except ChildError as e:
-        _CHILD.close()
+        child.close()
         raise RuntimeError("child interpreter failed: %s" % str(e)[-1500:])
     for name, art in envs.items():
         stats["env_" + name.split(":")[0]] = stats.get("env_" + name.split(":")[0], 0) + 1
